@@ -369,6 +369,11 @@ type Reader struct {
 
 	current Block
 
+	// lent is the last Block obtained from a cache that kept it
+	// indexed. It is on loan: it must not be recycled for another
+	// member while any cache may still hand it out.
+	lent Block
+
 	// cache is the Reader block cache. If Cache is not nil,
 	// the cache is queried for blocks before an attempt to
 	// read from the underlying io.Reader.
@@ -512,6 +517,7 @@ func (bg *Reader) Seek(off Offset) error {
 							// This decompressor had the block we
 							// wanted.
 							bg.current = blk
+							bg.lent = blk // keep has put it into the cache.
 							select {
 							case <-bg.control:
 							default:
@@ -733,6 +739,10 @@ func (bg *Reader) cacheSwap(base int64) bool {
 	bg.mu.RLock()
 	defer bg.mu.RUnlock()
 	if bg.cache == nil {
+		if bg.current != nil && bg.current == bg.lent {
+			// Still indexed by a cache that has been detached.
+			bg.current = nil
+		}
 		return false
 	}
 
@@ -754,7 +764,7 @@ func (bg *Reader) cacheSwap(base int64) bool {
 		bg.current = nil
 	} else if bg.current != nil {
 		// Do not recycle a block that the cache still holds.
-		if exists, _ := bg.cache.Peek(bg.current.Base()); exists {
+		if exists, _ := bg.cache.Peek(bg.current.Base()); exists || bg.current == bg.lent {
 			bg.current = nil
 		}
 	}
@@ -787,6 +797,11 @@ func (bg *Reader) cachedBlockFor(base int64) (Block, error) {
 		err := blk.seek(0)
 		if err != nil {
 			return nil, err
+		}
+		if exists, _ := bg.cache.Peek(base); exists {
+			// The cache has kept the Block (cache.FIFO does
+			// this for Used Blocks).
+			bg.lent = blk
 		}
 	}
 	return blk, nil
